@@ -20,7 +20,7 @@ let rec nat_of_int n = if n <= 0 then O else S (nat_of_int (n - 1))
 let rec int_of_nat = function O -> 0 | S n -> 1 + int_of_nat n
 
 (* token stream of one input line *)
-type toks = { mutable rest : string list }
+type toks = { mutable rest : Stdlib.String.t list }
 
 let toks_of_line s =
   { rest = List.filter (fun x -> x <> "") (String.split_on_char ' ' s) }
